@@ -43,6 +43,13 @@ var props = map[string]PropMeta{
 		Real: hubReal, Stub: hubStub,
 		QuickS: 30, ThoroughS: 480, QuickWorkers: 8,
 	},
+	"C10": {
+		Level: "exploration",
+		Rule: "one run = 2-3 real hubs, each with a drawn sequence of up to 10 user operations from {register, unregister, cancel pairing, disconnect, auto-accept on/off, hide / re-show a service on mDNS} with gaps 0..40 s and optionally Shutdown last; mDNS propagation 0..0.9 s, latency 0..500 ms, dial back-off drawn per attempt so delayed attempts are pending when intent changes x seeded interleaving; history oracle over (operation invoke/return, dial, setup, close) sequence numbers: every dial X->Y is covered by a Register(Y) with no returned Unregister/Cancel/Shutdown in between (ties at the instant of the return tolerated), unregister => untrusted at once, its connection reported closed within 2 s, no setup while unregistered with auto-accept off, cancel of a pending request => never completes; " +
+			"non-trivial = at least one dial and one unregister/shutdown; distinct = distinct operation plans",
+		Real: hubReal, Stub: hubStub,
+		QuickS: 40, ThoroughS: 600, QuickWorkers: 8,
+	},
 	"C05": {
 		Level: "exploration",
 		Rule: "one run = two real hubs (optionally a third bystander) with generated certificates on the simulated network and mDNS medium: registration before/after Start, start skew 0..30 s, network latency 0..900 ms (optionally asymmetric), mDNS propagation 0..6 s, the dial back-off drawn per attempt (minimum / maximum / any), then 0-4 disturbances from {DisconnectSKI by either side, unsafe close, reset of all connections, half-open link, mDNS outage} at drawn times, then 300 quiet simulated seconds x seeded interleaving of all hub, ship, ws, http and harness tasks; oracle: exactly one transport connection open at both ends, registered on both sides, completed on both sides, a fresh payload crosses in each direction; " +
